@@ -9,7 +9,7 @@ use super::{GetIter, PyOp};
 use crate::ber::SnmpOid;
 use crate::error::SnmpError;
 use crate::snmp::{get::SnmpGet, msg::SnmpPdu, value::SnmpValue};
-use pyo3::{exceptions::PyRuntimeError, prelude::*, pybacked::PyBackedStr, types::PyDict};
+use pyo3::{prelude::*, pybacked::PyBackedStr, types::PyDict};
 
 pub struct OpGetMany;
 
@@ -39,9 +39,8 @@ impl<'a> PyOp<'a, Vec<PyBackedStr>> for OpGetMany {
                         | SnmpValue::NoSuchObject
                         | SnmpValue::NoSuchInstance
                         | SnmpValue::EndOfMibView => continue,
-                        _ => dict
-                            .set_item(&var.oid, &var.value)
-                            .map_err(|e| PyRuntimeError::new_err(e.to_string()))?,
+                        // Conversion errors are decode errors, keep their type
+                        _ => dict.set_item(&var.oid, &var.value)?,
                     }
                 }
                 Ok(dict.as_any().to_owned())
